@@ -28,16 +28,21 @@ for sid in sorted(os.listdir(os.path.join(V, "seeded"))):
             results[sid] = {"property": prop, "outcome": "patch does not apply to current /repo HEAD", "detail": r.stderr[-300:]}
             continue
         env = dict(os.environ); env["VF_REPO"] = wt
-        r = subprocess.run(["nice", "-n", "5", os.path.join(V, "check"), prop, "--no-evidence", "--tier", tier],
-                           env=env, capture_output=True, text=True, cwd=V)
-        out = r.stdout.splitlines()
-        caught = []
-        for i, l in enumerate(out):
-            if l.startswith("VIOLATION"):
-                job = re.sub(r".*replays/%s-(.*)\.txt.*" % prop, r"\1", l)
-                ob = out[i + 1].strip()[len("failed obligation: "):][:160] if i + 1 < len(out) and "failed obligation" in out[i + 1] else ""
-                caught.append({"job": job, "first_obligation": ob, "native_replay": "reproduced" if "no-failing-input-found" not in l else "not reproduced"})
-        results[sid] = {"property": prop, "tier": tier, "title": meta.get("title", ""),
+        # the change is run against the check of the property it breaks and, where the code it touches
+        # is under contract in another property's registry, against that check too (meta.also_check)
+        caught, out, rcs = [], [], []
+        for pr in [prop] + list(meta.get("also_check", [])):
+            r = subprocess.run(["nice", "-n", "5", os.path.join(V, "check"), pr, "--no-evidence", "--tier", tier],
+                               env=env, capture_output=True, text=True, cwd=V)
+            o = r.stdout.splitlines(); out += o; rcs.append(r.returncode)
+            for i, l in enumerate(o):
+                if l.startswith("VIOLATION"):
+                    job = re.sub(r".*replays/%s-(.*)\.txt.*" % pr, r"\1", l)
+                    ob = o[i + 1].strip()[len("failed obligation: "):][:160] if i + 1 < len(o) and "failed obligation" in o[i + 1] else ""
+                    caught.append({"check": pr, "job": job, "first_obligation": ob, "native_replay": "reproduced" if "no-failing-input-found" not in l else "not reproduced"})
+        class R: pass
+        r = R(); r.returncode = 1 if 1 in rcs else (2 if 2 in rcs else 0)
+        results[sid] = {"property": prop, "tier": tier, "title": meta.get("title", ""), "checks_run": [prop] + list(meta.get("also_check", [])),
                         "outcome": {0: "MISSED", 1: "DETECTED", 2: "UNDECIDED"}.get(r.returncode, str(r.returncode)),
                         "caught_by": caught[:8], "undecided": [l[:160] for l in out if l.startswith("UNDECIDED")][:4],
                         "seconds": round(time.time() - t0), "repo_head": subprocess.run(["git", "-C", "/repo", "rev-parse", "--short", "HEAD"], capture_output=True, text=True).stdout.strip()}
